@@ -20,23 +20,23 @@ import (
 // Reply variants of the evil server. The first group are well-formed replies (controls), the rest
 // are malformed: the caller must observe a non-OK status and no result.
 const (
-	evOK         = iota // well-formed OK response with a result
-	evFail              // well-formed response with an application status
-	evOKAsData          // well-formed OK response sent as a data frame, then a plain close
-	evMidGarbage        // stream: a garbage frame in the middle, then a well-formed OK response (either outcome)
-	evFirstBad          // --- malformed from here on
-	evGarbage    = iota - 1
-	evTruncated         // prefix of a well-formed OK response
-	evTrailing          // well-formed OK response followed by ff ff ff
-	evTypeRequest       // the request message echoed back
-	evTypeUnknown       // message of an unknown type that carries an OK response
-	evTypeUndefined     // message of type 0 that carries an OK response
-	evNoResp            // type Response without the response field
-	evNoStatus          // response with a result but without a status
-	evRespIsString      // the response field holds a string instead of a message
-	evCloseOnly         // close without any data
-	evMessageLast       // a stream message as the last frame
-	evEndLast           // an end message as the last frame
+	evOK            = iota // well-formed OK response with a result
+	evFail                 // well-formed response with an application status
+	evOKAsData             // well-formed OK response sent as a data frame, then a plain close
+	evMidGarbage           // stream: a garbage frame in the middle, then a well-formed OK response (either outcome)
+	evFirstBad             // --- malformed from here on
+	evGarbage       = iota - 1
+	evTruncated     // prefix of a well-formed OK response
+	evTrailing      // well-formed OK response followed by ff ff ff
+	evTypeRequest   // the request message echoed back
+	evTypeUnknown   // message of an unknown type that carries an OK response
+	evTypeUndefined // message of type 0 that carries an OK response
+	evNoResp        // type Response without the response field
+	evNoStatus      // response with a result but without a status
+	evRespIsString  // the response field holds a string instead of a message
+	evCloseOnly     // close without any data
+	evMessageLast   // a stream message as the last frame
+	evEndLast       // an end message as the last frame
 	numEvil
 )
 
@@ -259,7 +259,7 @@ func (w *evilWorld) handle(ctx mpx.Context, ch mpx.Channel) status.Status {
 	return status.OK
 }
 
-func (w *evilWorld) call(cl rpc.Client, e *evilPlan, timeout time.Duration) {
+func (w *evilWorld) call(cl rpc.Client, e *evilPlan, t timeouts) {
 	rec := w.recs[e.id]
 	defer func() {
 		if x := recover(); x != nil {
@@ -270,6 +270,7 @@ func (w *evilWorld) call(cl rpc.Client, e *evilPlan, timeout time.Duration) {
 		rec.mu.Lock()
 		rec.done = true
 		rec.mu.Unlock()
+		tick()
 	}()
 	rw := prpc.NewRequestWriter()
 	calls := rw.Calls()
@@ -288,7 +289,7 @@ func (w *evilWorld) call(cl rpc.Client, e *evilPlan, timeout time.Duration) {
 
 	ctx := async.NewContext()
 	defer ctx.Free()
-	wd := time.AfterFunc(timeout, func() {
+	stopWatch := watchCall(t, func() {
 		rec.mu.Lock()
 		hung := !rec.done
 		rec.hung = rec.hung || hung
@@ -297,7 +298,7 @@ func (w *evilWorld) call(cl rpc.Client, e *evilPlan, timeout time.Duration) {
 			ctx.Cancel()
 		}
 	})
-	defer wd.Stop()
+	defer stopWatch()
 
 	set := func(v []byte, st status.Status) {
 		rec.mu.Lock()
@@ -331,6 +332,7 @@ func (w *evilWorld) call(cl rpc.Client, e *evilPlan, timeout time.Duration) {
 		rec.mu.Lock()
 		rec.recv = append(rec.recv, append([]byte{}, b...))
 		rec.mu.Unlock()
+		tick()
 	}
 	v, st := ch.Response(ctx)
 	set(v, st)
@@ -393,7 +395,7 @@ func runEvil(s *scenario, r *hx.Rand, cfg runCfg, derived uint64) (line string, 
 				if i >= len(order) {
 					return
 				}
-				w.call(cl, order[i], 8*time.Second)
+				w.call(cl, order[i], s.timeouts())
 			}
 		}()
 	}
@@ -401,14 +403,14 @@ func runEvil(s *scenario, r *hx.Rand, cfg runCfg, derived uint64) (line string, 
 	go func() { wg.Wait(); close(done) }()
 	select {
 	case <-done:
-	case <-time.After(30 * time.Second):
+	case <-time.After(s.timeouts().hard + 4*time.Second):
 		viol = append(viol, "evil-traffic-hung")
 	}
 	mpx.VerifSetYield(0, 0, 0)
 	cl.Close()
 	select {
 	case <-srv.Stop():
-	case <-time.After(5 * time.Second):
+	case <-time.After(3 * time.Second):
 		viol = append(viol, "evil-server-stop-hung")
 	}
 
